@@ -1,10 +1,10 @@
 package main
 
 import (
-	"sort"
 	"go/ast"
 	"go/token"
 	"go/types"
+	"sort"
 )
 
 func init() { register("C10", propC10) }
@@ -198,6 +198,39 @@ func ruleNeededFieldsComplete(r *Report, rule string) {
 			}
 			return true
 		})
+	}
+	if !okDedupe {
+		// (3) whatever the spelling (found flag, helper, early continue): some test compares an element of the
+		// CURRENT list with the field being added, and from its "equal" side the append cannot be reached
+		// within the same iteration of the outer loop
+		appLoc, okLoc := g.Locate(app)
+		for _, b := range g.G.Blocks {
+			cond, tag, okc := branchCond(b)
+			if !okc || tag != nil || len(b.Succs) != 2 || !okLoc {
+				continue
+			}
+			var atoms []Fact
+			splitCond(cond, true, &atoms)
+			for _, a := range atoms {
+				be, isB := ast.Unparen(a.Expr).(*ast.BinaryExpr)
+				if !isB || be.Op != token.EQL || !a.Truth {
+					continue
+				}
+				isElem := func(e ast.Expr) bool {
+					coll, _, ok := elemOfCollection(info, fi.Decl.Body, e)
+					return ok && isField(info, coll, "TopNCollector", "neededFields")
+				}
+				isNew := func(e ast.Expr) bool {
+					o := objOf(info, resolveCopies(info, fi.Decl.Body, e))
+					return o != nil && outer.Value != nil && o == objOf(info, outer.Value)
+				}
+				if (isElem(be.X) && isNew(be.Y)) || (isElem(be.Y) && isNew(be.X)) {
+					if b.Succs[0] != appLoc.B && !g.reachableForward(b.Succs[0], appLoc) {
+						okDedupe = true
+					}
+				}
+			}
+		}
 	}
 	r.Ob(rule, fi.Name+"/no-duplicate-needed-field", app.Pos(), okDedupe, "a field is appended only if it is not already in the CURRENT neededFields list ("+detail+"); a duplicate entry makes the doc-value reader visit the field twice and every facet count double")
 }
@@ -423,7 +456,6 @@ func isMatchHandlerVar(info *types.Info, id *ast.Ident) bool {
 	nt := namedOf(v.Type())
 	return nt != nil && nt.Obj().Name() == "DocumentMatchHandler"
 }
-
 
 // sameGuardModuloErrors: both locations execute under the same branch facts once
 // "no error so far" facts (the complement of an early error return) are set aside.
